@@ -25,6 +25,7 @@ import DtailModel.Model.Conn
 import DtailModel.Model.Multi
 import DtailModel.Model.Tail
 import DtailModel.Model.Session
+import DtailModel.Model.Aggregator
 open Dtail
 
 structure Res where
@@ -817,6 +818,64 @@ def opC14Script : List String → Res
   | _ => bad
 where max' (a b : Int) : Int := if a < b then b else a
 
+/-! C06 -/
+
+/-- c06.fifo <nfiles> <script>: readers' steps from the script, the aggregator settles after each -/
+def opC06Fifo : List String → Res
+  | [nf, script] => match nf.toNat? with
+    | some nf =>
+      let opl := (script.splitOn ",").filter (· ≠ "")
+      let idx (o : String) : Nat := (o.drop 1).toString.toNat?.getD 0
+      let sizes := (List.range nf).map fun i => (opl.filter (· == s!"P{i}")).length
+      let fuel := 4 * (nf + sizes.foldl (· + ·) 0) + 16
+      let step (acc : Option Agg × Nat) (o : String) : Option Agg × Nat :=
+        match acc.1 with
+        | none => acc
+        | some st =>
+          let lab : Option ALabel :=
+            if o.startsWith "C" then some (.register (idx o))
+            else if o.startsWith "P" then some (.push (idx o))
+            else if o.startsWith "X" then some (.close (idx o))
+            else none
+          match lab with
+          | none => (some st, acc.2)                    -- M: the map command creates the aggregator
+          | some l => match aggStep st l with
+            | none => (none, acc.2)
+            | some st' => let r := aggSettle fuel st' []; (some r.1, acc.2 + (r.2.filter (· == .rotate)).length)
+      match opl.foldl step (some (aggInit sizes), 0) with
+      | (some st, steps) =>
+        let render (counts : List Nat) : String :=
+          let parts := (counts.zipIdx.filter (·.1 > 0)).map fun (c, i) => s!"{i}={c}"
+          (if parts.isEmpty then "empty" else joinWith "," parts) ++ ";closed=true"
+        let got := st.rds.map (·.consumed)
+        let lost := (st.rds.zip sizes).any fun (d, n) => d.consumed ≠ n
+        { m := render got, s := render sizes,
+          g := if lost then "late-register" else "-",
+          t := joinWith "," ((if nf > 1 then ["multi-file"] else []) ++ (if lost then ["lost"] else ["complete"])
+            ++ (if steps > 0 then ["rotation"] else [])
+            ++ (if sizes.any (· == 0) then ["empty-file"] else [])) }
+      | (none, _) => { m := "script-rejected" }
+    | none => bad
+  | _ => bad
+
+/-- c06.merge <nservers> <steps>: the client's global group after every server's partials -/
+def opC06Merge : List String → Res
+  | [_, steps] =>
+    let arr := ((steps.splitOn ",").filter (·.startsWith "A")).filterMap fun st =>
+      match ((st.drop 1).toString).splitOn ":" with
+      | [i, g, c] => match i.toNat?, c.toInt? with
+        | some i, some c => some (g, i, (⟨some c, none⟩ : Col))
+        | _, _ => none
+      | _ => none
+    let groups := ((arr.map (·.1)).eraseDups.toArray.qsort (· < ·)).toList
+    let out := groups.map fun g =>
+      let col := clientGlobal .count ((arr.filter (·.1 == g)).map (·.2))
+      s!"{g}={col.num.getD 0}"
+    let r := if out.isEmpty then "empty" else joinWith "," out
+    { m := r, s := r,
+      t := joinWith "," ((if steps.contains 'H' then ["held"] else []) ++ (if groups.length > 1 then ["multi-group"] else [])) }
+  | _ => bad
+
 /-! C07 -/
 
 def padTo (n : Nat) (l : Bytes) : Bytes := l ++ List.replicate (n - l.length) 120
@@ -997,6 +1056,8 @@ def dispatch (line : String) : Res :=
   | "c04.perc" :: a => opC04Perc a
   | "c04.tail" :: a => opC04Tail a
   | "c05.agg" :: a => opC05Agg a
+  | "c06.fifo" :: a => opC06Fifo a
+  | "c06.merge" :: a => opC06Merge a
   | "c07.multi" :: a => opC07Multi a
   | "c08.perm" :: a => opC08Perm a
   | "c08.cat" :: a => opC08Cat a
